@@ -301,6 +301,12 @@ def main():
     def mp_kind(mp):
         return KN[type(mp).__name__]
 
+    def ordered_word(op, w):
+        """word in the wire order of the operator (MeasurementProcess.__hash__ contains the wire tuple, so
+        expval(Y(0)@X(1)) and expval(X(1)@Y(0)) are different dictionary keys); identity wires get letter 4"""
+        letters = dict(w)
+        return [[int(x), int(letters.get(x, 4))] for x in op.wires]
+
     def mp_key(mp):
         """[kind, [num, den], word] for a single-word measurement (wires-only: letter 0, written order)"""
         kind = KINDS[mp_kind(mp)]
@@ -312,7 +318,7 @@ def main():
         if len(lin) != 1:
             return None
         (w, c), = lin.items()
-        return [kind, [c.numerator, c.denominator], [list(x) for x in w]]
+        return [kind, [c.numerator, c.denominator], ordered_word(mp.obs, w)]
 
     def fake_value(mp):
         if mp_kind(mp) == "expval":
@@ -348,9 +354,10 @@ def main():
                     ts = None
                     break
                 c = frac(c)
-                ts.append([[c.numerator, c.denominator], bool(isinstance(o, qp.Identity)), [list(x) for x in list(lin)[0]]])
+                isI = bool(isinstance(o, qp.Identity))
+                ts.append([[c.numerator, c.denominator], isI, [] if isI else ordered_word(o, list(lin)[0])])
             d["terms"] = ts
-            d["simp_sum"] = bool(isinstance(obs.simplify(), Sum))
+            d["simp_sum"] = bool(isinstance(obs.simplify(), Sum))      # after terms(): see run_fake
         else:
             d["terms"] = []
             d["simp_sum"] = False
@@ -375,7 +382,8 @@ def main():
         tape = qp.tape.QuantumScript([qp.Hadamard(w) for w in range(nw)], ms)
         out = {"meas": None}
         try:
-            out["meas"] = [model_meas(m) for m in ms]
+            # fresh copies: simplify() caches / rewrites pauli_rep of the object it is called on
+            out["meas"] = [model_meas(build_mp(m)) for m in c["ms"]]
         except ValueError as e:
             out["meas_err"] = str(e)
         try:
@@ -472,22 +480,34 @@ def main():
         if kinds_flat.get("shape_only_at", lambda p: False)(path):
             return None
         err = max([abs(x - y) for x, y in zip(a["v"], b["v"])] or [0.0])
-        return None if err <= 1e-9 else f"values differ at {path}: max abs err {err:.3g}: {a['v'][:4]} vs {b['v'][:4]}"
+        return None if err <= kinds_flat.get("tol", 1e-9) else f"values differ at {path}: max abs err {err:.3g}: {a['v'][:4]} vs {b['v'][:4]}"
 
-    def e2e_case(rng, idx, tier):
+    def has_overlap(op):
+        if isinstance(op, SProd):
+            return has_overlap(op.base)
+        if isinstance(op, (Sum, Prod)):
+            return any(len(g) > 1 for g in op.overlapping_ops) or any(has_overlap(o) for o in op.operands)
+        return False
+
+    def fq(x):
+        f = Fr(*float(x).as_integer_ratio())
+        return [f.numerator, f.denominator]
+
+    def e2e_case(rng, idx, tier, forced=None):
         """one end-to-end comparison: returns dict(name, desc, status, detail, stats)"""
         transforms = ["snc:default", "snc:qwc", "snc:wires", "snc:none", "single", "diag", "diag_sub", "sign", "bexp", "bparams", "binput",
                       "snc_reject", "diag_reject", "snc:default", "single", "diag", "bexp", "snc_shots", "ham"]
-        tname = transforms[idx % len(transforms)]
-        nw = rng.choice([1, 2, 2, 3, 3])
+        tname = forced["transform"] if forced else transforms[idx % len(transforms)]
+        nw = forced["nw"] if forced else rng.choice([1, 2, 2, 3, 3])
         dev = qp.device("default.qubit")
         rec = {"transform": tname, "nw": nw}
 
-        def finish(tape, tapes, fn, shape_only=(), analytic=True):
+        def finish(tape, tapes, fn, shape_only=(), analytic=True, tol=1e-9):
             direct = qp.execute([tape], dev, diff_method=None)[0]
             got = fn(qp.execute(list(tapes), dev, diff_method=None))
             rec["ntapes"] = len(tapes)
             kf = {"shape_only_at": (lambda p: any(p.startswith(f"[{i}]") for i in shape_only)) if len(tape.measurements) > 1 else (lambda p: bool(shape_only))}
+            kf["tol"] = tol
             r = compare(norm(direct), norm(got), kf)
             rec["status"] = "ok" if r is None else "mismatch"
             if r:
@@ -505,7 +525,8 @@ def main():
             ms = [build_mp(m) for m in msj]
             tape = qp.tape.QuantumScript(ops, ms)
             rec.update({"ops": [repr(o) for o in ops], "ms": msj, "B": B})
-            pars = tape.get_parameters(trainable_only=False)
+            npar_all = len(tape.get_parameters(trainable_only=False))
+            pars = [p for o in ops for p in o.data]          # operation parameters come first in the tape's parameter list
             bidx = [i for i, p in enumerate(pars) if np.ndim(p) == 1]
             if tname == "bexp":
                 tapes, fn = qp.transforms.broadcast_expand(tape)
@@ -513,9 +534,12 @@ def main():
                 tape.trainable_params = bidx
                 tapes, fn = qp.transforms.batch_params(tape)
             else:
-                tape.trainable_params = [i for i in range(len(pars)) if i not in bidx]
+                tape.trainable_params = [i for i in range(npar_all) if i not in bidx]
                 tapes, fn = qp.transforms.batch_input(tape, argnum=bidx)
             rec["order_ok"] = True
+            rec["bops"] = [[i, [([fq(v) for v in p] if np.ndim(p) == 1 else fq(p)) for p in o.data]] for i, o in enumerate(ops)]
+            rec["btapes"] = [[[i, [fq(v) for v in o.data]] for i, o in enumerate(t.operations)] for t in tapes]
+            rec["names_ok"] = all([o.name for o in t.operations] == [o.name for o in ops] and [list(o.wires) for o in t.operations] == [list(o.wires) for o in ops] for t in tapes)
             # order: tape b must carry the b-th slice of every batched parameter
             for b, t in enumerate(tapes):
                 tp = t.get_parameters(trainable_only=False)
@@ -532,23 +556,29 @@ def main():
 
         if tname == "sign":
             ops = rand_ops(rng, nw)
-            pool = []
-            terms = [gen_term(rng, list(range(nw)), pool, 0.0) for _ in range(rng.choice([1, 2, 3]))]
+            basis = {w: rng.choice("XYZ") for w in range(nw)}
+            terms = []
+            for _ in range(rng.choice([1, 2, 3])):
+                ws = rng.sample(range(nw), rng.randint(1, nw))
+                fs = [["P", basis[w], w] for w in ws]
+                wd = fs[0] if len(fs) == 1 else ["prod", fs]
+                terms.append(["sprod", list(rng.choice(COEFS)), wd] if rng.random() < 0.6 else wd)
             if rng.random() < 0.3:
                 terms.append(["sprod", list(rng.choice(COEFS)), ["I", 0]])
-            cs, os_ = [], []
-            for x in terms:
-                if x[0] == "sprod":
-                    cs.append(x[1]); os_.append(x[2])
-                else:
-                    cs.append([1, 1]); os_.append(x)
-            a = ["lc", cs, os_]
-            kind = rng.choice(["expval", "expval", "var"])
+            a = ["sum", terms] if len(terms) > 1 else ["sum", terms + [["sprod", [1, 2], ["P", basis[0], 0]]]]
             Hm = build(a)
-            tape = qp.tape.QuantumScript(ops, [qp.expval(Hm) if kind == "expval" else qp.var(Hm)])
-            rec.update({"ops": [repr(o) for o in ops], "ms": [{"kind": kind, "obs": a}]})
-            tapes, fn = qp.transforms.sign_expand(tape, circuit=False)
-            return finish(tape, tapes, fn)
+            tape = qp.tape.QuantumScript(ops, [qp.expval(Hm)])
+            rec.update({"ops": [repr(o) for o in ops], "ms": [{"kind": "expval", "obs": a}]})
+            eigs = np.linalg.eigvalsh(qp.matrix(Hm, wire_order=list(range(nw))))
+            rec["has_Y"] = any(basis[w] == "Y" for w in range(nw))
+            rec["spectrum_midpoint"] = float((eigs[0] + eigs[-1]) / 2)
+            try:
+                tapes, fn = qp.transforms.sign_expand(tape, circuit=False)
+            except ValueError as e:
+                rec["status"] = "raised_on_valid"
+                rec["exc"] = f"{type(e).__name__}: {e}"[:200]
+                return rec
+            return finish(tape, tapes, fn, tol=1e-6)     # sign_expand builds its projectors in complex64
 
         if tname in ("snc_reject",):
             ops = rand_ops(rng, nw)
@@ -642,10 +672,18 @@ def main():
                 else:
                     msj.append({"kind": rng.choice(["sample", "counts"]), "obs": qword()})
                     shots = 40
+            if forced:
+                msj, shots = forced["ms"], None
             rec.update({"ops": [repr(o) for o in ops], "ms": msj, "shots": shots})
             tape = qp.tape.QuantumScript(ops, [build_mp(m) for m in msj], shots=shots)
+            rec["overlap"] = any(m.obs is not None and has_overlap(m.obs) for m in tape.measurements)
             kw = {}
-            if tname == "diag_sub":
+            if forced and forced.get("to_eigvals"):
+                kw["to_eigvals"] = True
+                rec["to_eigvals"] = True
+            elif forced:
+                pass
+            elif tname == "diag_sub":
                 kw["supported_base_obs"] = rng.choice([[qp.X], [qp.Y, qp.Z], [qp.X, qp.Y], [qp.Z, qp.X, qp.Y]])
                 rec["supported"] = [c.__name__ for c in kw["supported_base_obs"]]
             elif rng.random() < 0.25:
@@ -678,6 +716,8 @@ def main():
             msj = [{"kind": "expval", "obs": ["sum", [gen_term(rng, list(range(nw)), pool) for _ in range(rng.choice([2, 3, 4]))] + ([["sprod", [3, 2], ["I", 0]]] if rng.random() < 0.5 else [])]}]
         else:
             msj = gen_ms(rng, nw, profile)
+        if forced:
+            msj = forced["ms"]
         ops = rand_ops(rng, nw, batch=(rng.choice([2, 3]) if rng.random() < 0.2 else None), nbatched=1)
         # var/sample/counts of scalar multiples are legal but keep var to plain words/scalars; drop nothing
         stoch = [i for i, m in enumerate(msj) if m["kind"] in ("sample", "counts")]
@@ -719,10 +759,14 @@ def main():
     e2 = req.get("e2e")
     if e2:
         rng = random.Random(e2["seed"])
-        for i in range(e2["n"]):
-            st = rng.getstate()
+        corpus = e2.get("corpus", [])
+        for i in range(len(corpus) + e2["n"]):
             try:
-                r = e2e_case(rng, i, e2.get("tier", "quick"))
+                if i < len(corpus):
+                    r = e2e_case(random.Random(1234 + i), i, "quick", forced=corpus[i])
+                    r["corpus"] = True
+                else:
+                    r = e2e_case(rng, i - len(corpus), e2.get("tier", "quick"))
             except Exception as e:  # noqa
                 import traceback
                 r = {"status": "driver_error", "exc": traceback.format_exc()[-800:]}
